@@ -232,6 +232,7 @@ func (t *Transaction) DecodeBinary(br *io.BinReader) {
 	t.decodeBinaryNoSize(br, nil)
 
 	if br.Err == nil {
+		t.size = 0 // Can be set if the structure is reused.
 		_ = t.Size()
 	}
 }
